@@ -25,7 +25,7 @@ func genC13(w *out.W, tier string, mu *sync.Mutex) []job {
 		shapes = allShapes
 	}
 	w.Exhaust = true
-	w.Rule = fmt.Sprintf("exhaustive: %d directory shapes x every position of one failing statement x tx-mode {none,file,all} x {no directive, a 'txmode none' / 'txmode file' directive on the failing file or on the file before it, an invalid directive} x count argument {all, 1, 2}; scenario = apply (fails), apply again (fails the same way), fix the statement + re-hash + apply, apply; real CLI on a real SQLite file. Non-trivial = the first apply really failed; distinct by the whole tuple", len(shapes))
+	w.Rule = fmt.Sprintf("exhaustive: %d directory shapes x every position of one failing statement x tx-mode {none,file,all} x {no directive, a 'txmode none' / 'txmode file' directive on the failing file or on the file before it, an invalid directive} x count argument {all, 1, 2}; scenario = apply (fails), apply again (fails the same way), fix the statement + re-hash + apply, apply; plus double failures (statement a fails, a fixed and statement b > a of the same file fails on the resumed run, all fixed, apply) on files of >= 3 statements x {none, file, all, file + 'txmode none' directive, none + 'txmode file' directive}; real CLI on a real SQLite file. Non-trivial = the first apply really failed; distinct by the whole tuple", len(shapes))
 	var jobs []job
 	id := 0
 	for _, sh := range shapes {
@@ -81,7 +81,93 @@ func genC13(w *out.W, tier string, mu *sync.Mutex) []job {
 			}
 		}
 	}
+	// a resumed run that fails again later in the same file, then the full fix:
+	// fail at statement a, fix it partially (now statement b > a fails), fix all
+	dshapes := [][]int{{3}, {1, 3}, {3, 2}}
+	if tier == "thorough" {
+		dshapes = [][]int{{3}, {4}, {1, 3}, {3, 2}, {2, 4}, {1, 3, 1}}
+	}
+	for _, sh := range dshapes {
+		base := shapeFiles(sh)
+		for fi := range base {
+			for a := range base[fi].Stmts {
+				for b := a + 1; b < len(base[fi].Stmts); b++ {
+					for _, mv := range [][2]string{{"none", ""}, {"file", ""}, {"all", ""}, {"file", "none"}, {"none", "file"}} {
+						id++
+						cid := fmt.Sprintf("c13-%d", id)
+						mk := func(bad int) []tfile {
+							fs := cloneFiles(base)
+							fs[fi].Bad = bad
+							fs[fi].Directive = mv[1]
+							return fs
+						}
+						m := mv[0]
+						steps := []step{{Mode: m, Files: mk(a)}, {Mode: m, Files: mk(b)}, {Mode: m, Files: mk(-1)}, {Mode: m, Files: mk(-1)}}
+						sh, fi, a, b, mv := sh, fi, a, b, mv
+						jobs = append(jobs, job{id: cid, steps: steps, post: func(id string, steps []step, res []obs) {
+							w.Count("double-failure:" + mv[0] + "/" + mv[1])
+							if res[0].Exit == "fail" && res[1].Exit == "fail" {
+								w.NonTrivial(fmt.Sprintf("double|%v|%d|%d|%d|%v", sh, fi, a, b, mv))
+							}
+							oracleC13Double(w, id, sh, base, fi, a, b, mv[0], mv[1], res)
+						}})
+					}
+				}
+			}
+		}
+	}
 	return jobs
+}
+
+// oracleC13Double: statement a of file fi fails, then (a fixed) statement b > a
+// fails, then everything is fixed. Each failure leaves the state the tx-mode
+// prescribes, and the fixed directory reaches the state of a run without failure.
+func oracleC13Double(w *out.W, id string, shape []int, base []tfile, fi, a, b int, mode, dir string, res []obs) {
+	desc := fmt.Sprintf("shape=%v file%d fails at stmt%d, then at stmt%d, then fixed; mode=%s directive=%q s0{%s} s1{%s} s2{%s}", shape, fi+1, a+1, b+1, mode, dir,
+		res[0].String(false), res[1].String(false), res[2].String(false))
+	em, _ := effectiveMode(mode, dir)
+	var before []int
+	var beforeRevs []string
+	if mode != "all" {
+		for i := 0; i < fi; i++ {
+			before = append(before, base[i].Stmts...)
+			beforeRevs = append(beforeRevs, fmt.Sprintf("%s:%d:%d:0", base[i].Ver, len(base[i].Stmts), len(base[i].Stmts)))
+		}
+	}
+	f := base[fi]
+	for si, bad := range []int{a, b} {
+		want := append([]int{}, before...)
+		wantRevs := append([]string{}, beforeRevs...)
+		if em == "none" {
+			want = append(want, f.Stmts[:bad]...)
+			wantRevs = append(wantRevs, fmt.Sprintf("%s:%d:%d:1", f.Ver, bad, len(f.Stmts)))
+		}
+		o := res[si]
+		var got []string
+		for _, r := range o.Revs {
+			p := strings.Split(r, ":")
+			got = append(got, fmt.Sprintf("%s:%s:%s:%s", p[0], p[1], p[2], p[4]))
+		}
+		if o.Exit != "fail" || fmt.Sprint(o.Journal) != fmt.Sprint(want) || fmt.Sprint(got) != fmt.Sprint(wantRevs) {
+			w.Violation(id, "double-failure-state", fmt.Sprintf("step %d: exit=%s journal=%v revisions=%v want fail %v %v: %s stderr=%s", si, o.Exit, o.Journal, got, want, wantRevs, desc, o.Stderr))
+			return
+		}
+	}
+	all := flat(base)
+	if res[2].Exit != "ok" || fmt.Sprint(res[2].Journal) != fmt.Sprint(all) {
+		w.Violation(id, "fix-rerun", fmt.Sprintf("after fixing both statements: exit=%s journal=%v want %v: %s stderr=%s", res[2].Exit, res[2].Journal, all, desc, res[2].Stderr))
+		return
+	}
+	for i, r := range res[2].Revs {
+		p := strings.Split(r, ":")
+		if i >= len(base) || p[0] != base[i].Ver || p[1] != p[2] || p[1] != fmt.Sprint(len(base[i].Stmts)) || p[3] != "0" || p[4] != "0" {
+			w.Violation(id, "fix-rerun-history", fmt.Sprintf("after fixing both statements revisions=%v: %s", res[2].Revs, desc))
+			return
+		}
+	}
+	if res[3].Exit != "ok" || fmt.Sprint(res[3].Journal) != fmt.Sprint(all) {
+		w.Violation(id, "not-settled", fmt.Sprintf("a further apply changed something: %s", desc))
+	}
 }
 
 func effectiveMode(global, directive string) (string, bool) {
